@@ -94,6 +94,11 @@ class Model:
     # ---- C05 computable premise, primitives, plot ----
     def branch_faithful(self, a, b): return bool(self.raw([42, W.e_shape(a), W.e_shape(b)]))
     def diff_hyps(self, ja, jb, p): return bool(self.raw([48, W.e_jordan(ja), W.e_jordan(jb), W.e_point(p)]))
+    def convex_in(self, va, vb):
+        """C03_convex_in_iff on two vertex lists (A = va contains B = vb?): (convex a, convex b, tol_tested, area A >= area B,
+        the model's answer, poly_of va, poly_of vb)"""
+        r = self.raw([50, [W.e_point(q) for q in va], [W.e_point(q) for q in vb]])
+        return tuple(bool(x) for x in r[:4]) + (W.d_res(lambda x: bool(x), r[4]), W.d_jordan(r[5]), W.d_jordan(r[6]))
     def convex_hyps(self, va, vb, p):
         """C01_*_sound_convex on two vertex lists: (convex a, convex b, hyps |, hyps &, hyps -, poly_of va, poly_of vb)"""
         r = self.raw([49, [W.e_point(q) for q in va], [W.e_point(q) for q in vb], W.e_point(p)])
